@@ -10,10 +10,10 @@ import (
 	"encoding/asn1"
 	"fmt"
 
-	math "github.com/IBM/mathlib"
 	"github.com/IBM/TSS/mpc/bls"
 	"github.com/IBM/TSS/mpc/ps"
 	tss "github.com/IBM/TSS/types"
+	math "github.com/IBM/mathlib"
 
 	"verifharness/common"
 )
